@@ -1,7 +1,7 @@
 #!/bin/bash
 # usage: tools/sweep.sh <tier> <seed> [<seed>...]   — runs every claimed check once per seed, prints non-HELD ones
 tier=$1; shift
-cd /verif
+cd "$(dirname "$(readlink -f "$0")")/.."
 for seed in "$@"; do
   for p in $(python3 -c "import json;print(' '.join(c['property_id'] for c in json.load(open('MANIFEST.json'))['checks']))"); do
     t0=$(date +%s)
